@@ -146,6 +146,9 @@ class CSSParser:
             # TODO: py3 needs bytes here!
             if isinstance(cssText, bytes):
                 cssText = codecs.getdecoder('css')(cssText, encoding=encoding)[0]
+            if cssText.startswith('\ufeff'):
+                # a BOM left over by the decoder is not part of the first rule
+                cssText = cssText[1:]
 
             if validate is None:
                 validate = self._validate
